@@ -21,6 +21,21 @@ CHECKS = {
              'evaluated on the real code (sentinel / failing-input search).',
         note=TB + 'Modelled, not verified: jnp.einsum/cumsum/XLA execution, numpy log; float rounding is outside the theorems.',
         design='6/C13'),
+    'C03': dict(
+        technique='Lean 4 theorems about a hand-written executable model of the implicit terms / block matrix / three solve '
+                  'strategies, tied to the code by a differential correspondence check on every run; numpy.linalg.inv is a '
+                  'parameter whose left-inverse contract is checked on every matrix it was given',
+        text='Machine-checked proof: shallow-water Schur solve is the two-sided inverse of 1 - eta*L for every eta (denominator >= 1 '
+             'for Phi >= 0, lambda <= 0); for every layer count, level set, reference profile, eta of either sign and column '
+             'state the block matrix applied to the stacked state equals x - eta*implicit_terms(x); split = stacked (block '
+             'decomposition); any left inverse of the matrix returns x; the block-wise strategy is the exact resolvent when its two '
+             'inverted blocks are left inverses of I - GH and I - HG; the repaired cumulative-sum H agrees with the dense H on an '
+             'uneven column where the pre-repair code provably did not (exact rational witnesses). Dense = cumulative-sum '
+             'geopotential for every level set comes from C13. The general-n theorem dense H = cumulative-sum H is not yet proved '
+             '(partial; covered by correspondence and probes). Every model operation is compared with the real code (float64, 1e-9) '
+             'on random uneven level sets; the resolvent identity is also evaluated on the real code for every method pair.',
+        note=TB + 'Modelled, not verified: numpy.linalg.inv (contract |inv(M)M - I| <= 1e-9 + 1e-12 cond(M) checked per run), jnp.einsum, XLA.',
+        design='6/C03'),
 }
 
 NOT_YET = {
